@@ -12,6 +12,7 @@ func init() {
 			{"R8.2", "paired previous-row state is updated together", rulePairedPrevState},
 			{"R8.3", "per-file write order is request order", ruleWriteOrderPreserved},
 			{"R8.4", "offset and index come from the one slot mapping", ruleSlotMappingUsed},
+			{"R30.4", "slot → offset arithmetic is 64-bit", ruleOffsetArithmetic64},
 		},
 	})
 	register(&Property{
@@ -25,6 +26,7 @@ func init() {
 			{"R9.2", "sort before write", ruleSortBeforeWrite},
 			{"R9.3", "ticks codec agreement + framing constants", ruleTicksCodecAgreement},
 			{"R9.5", "the sort covers the merged buffer", ruleSortCoversMergedData},
+			{"R9.6", "the per-file result buffer is emptied for every file", rulePerFileBufferReset},
 			{"R8.2", "paired previous-row state is updated together", rulePairedPrevState},
 		},
 	})
@@ -35,6 +37,7 @@ func init() {
 		NotCovered: "the float64 rounding error bound over 2^32 offsets; monotonicity; exactness for 1-second intervals.",
 		Rules: []Rule{
 			{"R10.1", "scale constants, types, single decoder", ruleTicksScaleAgreement},
+			{"R10.4", "integer-valued float64 arithmetic of the encoder stays below 2^53", ruleFloatExactness},
 			{"R9.3", "ticks codec agreement", ruleTicksCodecAgreement},
 			{"R30.2", "one time-zone source", ruleOneTimezoneSource},
 		},
@@ -46,6 +49,7 @@ func init() {
 		Rules: []Rule{
 			{"R11.1", "not-found edge of the trimming loops", ruleSearchLoopNotFound},
 			{"R11.2", "variable results are always trimmed; limit after range", ruleTrimOrder},
+			{"R11.3", "year files are selected by calendar year (no fixed-length year)", ruleNoFixedLengthYear},
 		},
 	})
 	register(&Property{
@@ -55,6 +59,7 @@ func init() {
 		Rules: []Rule{
 			{"R12.1", "limit after range; unlimited reverse scan refused", ruleTrimOrder},
 			{"R12.3", "the backward scan reports every byte it copied (count accumulates over chunks)", ruleBackwardScanAccounting},
+			{"R19.3", "SQL LIMIT reaches the scan only when the statement has no predicates", rulePushdownGuarded},
 		},
 	})
 }
